@@ -8,6 +8,8 @@ pub mod policy {
 //@impl_open policy::BufPolicy::grow_to
     /// T6: what a policy must satisfy for the readers to terminate; each built-in policy defines when it does
     spec fn policy_ok(&self) -> bool;
+    /// what this policy (in its current state) answers for a given size
+    spec fn answer(&self, current_size: usize) -> Option<usize>;
 //@sig policy::BufPolicy::grow_to ret=r tags=C09
 //@spec
         requires
@@ -16,6 +18,7 @@ pub mod policy {
         ensures
             [C09,C06|policy.trait.ok_preserved] final(self).policy_ok(),
             [C09,C06|policy.trait.strictly_larger] r matches Some(n) ==> n > current_size,
+            [C09|policy.trait.answer] r == old(self).answer(current_size),
 //@end
 }
 
@@ -23,6 +26,9 @@ pub mod policy {
 
 //@impl_open policy::BufPolicy for StdPolicy::grow_to
     open spec fn policy_ok(&self) -> bool { true }
+    open spec fn answer(&self, current_size: usize) -> Option<usize> {
+        Some(if current_size < 0x80_0000 { (current_size * 2) as usize } else { (current_size + 0x80_0000) as usize })
+    }
 //@fn policy::BufPolicy for StdPolicy::grow_to ret=r tags=C09
 //@spec
         ensures
@@ -36,6 +42,9 @@ pub mod policy {
 
 //@impl_open policy::BufPolicy for DoubleUntil::grow_to
     open spec fn policy_ok(&self) -> bool { 1 <= self.0 <= isize::MAX }
+    open spec fn answer(&self, current_size: usize) -> Option<usize> {
+        Some(if current_size < self.0 { (current_size * 2) as usize } else { (current_size + self.0) as usize })
+    }
 //@fn policy::BufPolicy for DoubleUntil::grow_to ret=r tags=C09
 //@spec
         ensures
@@ -58,6 +67,10 @@ pub mod policy {
 
 //@impl_open policy::BufPolicy for DoubleUntilLimited::grow_to
     open spec fn policy_ok(&self) -> bool { 1 <= self.du() <= isize::MAX }
+    open spec fn answer(&self, current_size: usize) -> Option<usize> {
+        let n = if current_size < self.du() { current_size * 2 } else { current_size + self.du() };
+        if n <= self.lim() { Some(n as usize) } else { None }
+    }
 //@fn policy::BufPolicy for DoubleUntilLimited::grow_to ret=r tags=C09
 //@spec
         ensures
